@@ -42,9 +42,48 @@ theorem DInv.push {b : Beh} {C rem : List Byte} {t t' : Target} {ch : Msg}
 
 theorem DInv.closeBuf {b : Beh} {C rem : List Byte} {t : Target} (h : DInv b C rem t) : DInv b C rem t.closeBuf := h
 
+/-- the sender step when every buffered message belongs to the file the sender serves (no
+"different file" break) -/
+def Target.sndStepSame (t : Target) : Option Target :=
+  match t.snd with
+  | .recv =>
+    match t.buf with
+    | m :: rest =>
+      some { t with buf := rest, snd := .write m.chunk true, cop := if t.cop = .none then .lock else t.cop,
+                    args := if t.cop = .none then some m.md else t.args }
+    | [] => if t.bufClosed then some { t with snd := .exit, wClosed := true } else none
+  | .write pending once =>
+    if t.rClosed then some { t with snd := .drain, wClosed := true }
+    else if !once && pending.isEmpty then some { t with snd := .recv }
+    else none
+  | .drain =>
+    match t.buf with
+    | _ :: rest => some { t with buf := rest }
+    | [] => if t.bufClosed then some { t with snd := .exit } else none
+  | .exit => none
+
+/-- all buffered messages carry the destination the sender was started with -/
+def SameFile (t : Target) : Prop := ∀ m ∈ t.buf, t.cop ≠ .none → t.args.map (·.dst) = some m.md.dst
+
+theorem sndStep_eq_same {t : Target} (h : SameFile t) : t.sndStep = t.sndStepSame := by
+  unfold Target.sndStep Target.sndStepSame
+  cases hs : t.snd with
+  | exit => rfl
+  | write p o => rfl
+  | drain => cases t.buf <;> rfl
+  | recv =>
+    cases hb : t.buf with
+    | nil => rfl
+    | cons m rest =>
+      have := h m (by rw [hb]; simp)
+      by_cases hc : t.cop = .none
+      · simp [hc]
+      · simp [hc, this hc]
+
 theorem DInv.sndStep {b : Beh} {C rem : List Byte} {t t' : Target} {c : Bool}
-    (hT : TInv t c) (h : DInv b C rem t) (hs : t.sndStep = some t') : DInv b C rem t' := by
-  unfold Target.sndStep at hs
+    (hT : TInv t c) (h : DInv b C rem t) (hsame : SameFile t) (hs : t.sndStep = some t') : DInv b C rem t' := by
+  rw [sndStep_eq_same hsame] at hs
+  unfold Target.sndStepSame at hs
   unfold DInv TInv at *
   obtain ⟨h1, h2, h3, h4⟩ := h
   repeat' split at hs
@@ -272,9 +311,15 @@ theorem DG.init (behs : List Beh) (ids : List Nat) (msgs : List Msg) (M : CopyAr
     rw [ht.2]; simp
 
 /-- a sender step keeps the metadata facts: buffer messages carry `M`; once started, args = `M` -/
+theorem sameFile_of_args {M : CopyArgs} {t : Target} (hb : ∀ m ∈ t.buf, m.md = M) (ha : t.cop ≠ .none → t.args = some M) :
+    SameFile t := by
+  intro m hm hc
+  rw [ha hc, hb m hm]; rfl
+
 theorem args_sndStep {M : CopyArgs} {t t' : Target} (hb : ∀ m ∈ t.buf, m.md = M) (ha : t.cop ≠ .none → t.args = some M)
     (hs : t.sndStep = some t') : (∀ m ∈ t'.buf, m.md = M) ∧ (t'.cop ≠ .none → t'.args = some M) := by
-  unfold Target.sndStep at hs
+  rw [sndStep_eq_same (sameFile_of_args hb ha)] at hs
+  unfold Target.sndStepSame at hs
   cases hsnd : t.snd with
   | exit => simp [hsnd] at hs
   | write p o =>
@@ -436,7 +481,8 @@ theorem DG.step (behs : List Beh) (ids : List Nat) (C : List Byte) (M : CopyArgs
           · subst hij
             simp only [hj, if_true] at hti
             injection hti with hti; subst hti
-            exact DInv.sndStep (hT tj (List.mem_of_getElem? htj)) (hd j tj b hi htj hbi) hp
+            exact DInv.sndStep (hT tj (List.mem_of_getElem? htj)) (hd j tj b hi htj hbi)
+              (sameFile_of_args (hargs tj (List.mem_of_getElem? htj)).1 (hargs tj (List.mem_of_getElem? htj)).2) hp
           · simp only [hij, if_false] at hti
             exact hd i t b hi hti hbi
         · intro i t hi hti
@@ -523,5 +569,16 @@ theorem RunN.reach {behs : List Beh} {n : Nat} {s s' : State} (h : RunN behs n s
   induction h with
   | refl => exact Reach.refl _
   | step a _ hs ih => exact Reach.step a ih hs
+
+theorem run_reach (behs : List Beh) (f : Nat) (s : State) : Reach behs s (run behs f s) := by
+  induction f generalizing s with
+  | zero => exact Reach.refl s
+  | succ n ih =>
+    unfold run
+    cases h : (actions s.ts.length).findSome? (step behs s) with
+    | none => exact Reach.refl s
+    | some s' =>
+      obtain ⟨a, _, ha⟩ := List.exists_of_findSome?_eq_some h
+      exact Reach.trans (Reach.step a (Reach.refl s) ha) (ih s')
 
 end Eru.Misc.Sender
